@@ -59,7 +59,7 @@ def cargo_build(variant="default"):
     return _built[variant]
 
 
-def run_bin(variant, name, args, env=None, timeout=3600, stdin=None):
+def run_bin(variant, name, args, env=None, timeout=1500, stdin=None):
     d = cargo_build(variant)
     e = dict(os.environ)
     e["VERIF_SEED"] = str(seed())
@@ -67,6 +67,8 @@ def run_bin(variant, name, args, env=None, timeout=3600, stdin=None):
         e.update({k: str(v) for k, v in env.items()})
     p = subprocess.run([os.path.join(d, name)] + [str(a) for a in args], env=e, stdout=subprocess.PIPE,
                        stderr=subprocess.PIPE, text=True, timeout=timeout, input=stdin)
+    if p.returncode == 3 and '"hang":true' in p.stdout.replace(" ", ""):
+        return p.stdout           # watchdog: the output holds the "does not terminate" finding
     if p.returncode != 0:
         sys.stderr.write(p.stderr[-4000:])
         raise ToolError("%s exited with %d" % (name, p.returncode))
